@@ -1,5 +1,6 @@
 import SerfModel.Check.Core
 import SerfModel.Model.QueryHandle
+import SerfModel.Gen.InternalQueries
 /-!
 C08 checker.  The harness drives a real single Serf node; ops:
 
@@ -167,7 +168,11 @@ def step (s : St) (op : List String) (impl : String) : LineOut St :=
         let (b', o) := handleQuery re s.cfg b q
         -- what `serfQueries.stream` forwards of the node's event channel (real name, not hex)
         let chan : List AppEv := if o.delivered then [.query q.lt ((stringOfHex? name).getD "")] else []
-        let app := if (forwardedToApp chan).isEmpty then "-" else s!"{t}/{name}"
+        -- routed by the shape regenerated from serf/internal_query.go (= `forwardedToApp`, C08_forwarded_is_route)
+        let fwd := chan.filter fun e => match e with
+          | .query _ nm => route SerfModel.Gen.InternalQueries.stream SerfModel.Gen.InternalQueries.switch true nm == .app
+          | .other _ => true
+        let app := if fwd.isEmpty then "-" else s!"{t}/{name}"
         let ack := if o.acked then s!"{t}/{qid}/{unhx s.cfg.name}/1" else "-"
         let out := s!"app={app} ack={ack} rb={if o.rebroadcast then 1 else 0} clk={b'.clock.toNat}"
         let s1 := { s with buf := some b' }
